@@ -535,9 +535,9 @@ macro_rules! residual_new_ok_harness {
     };
 }
 
-//@ unit name=c18_residual_new_ok_o0_n2_w0 props=C18 tier=quick kind=bounded timeout=600 funcs="Residual::new; Residual::verify; Residual::write; Residual::count_bits" stubs="find_max -> scalar maximum (c18_find_max_contract); wrapping_sum -> scalar wrapping sum (c18_wrapping_sum_contract)" bound="partition order 0, block 2, warm-up 0; quotients <= 70, parameters and remainders symbolic"
-//@ unit name=c18_residual_new_ok_o0_n3_w2 props=C18 tier=quick kind=bounded timeout=600 funcs="Residual::new; Residual::verify; Residual::write; Residual::count_bits" stubs="find_max -> scalar maximum (c18_find_max_contract); wrapping_sum -> scalar wrapping sum (c18_wrapping_sum_contract)" bound="partition order 0, block 3, warm-up 2; quotients <= 70, parameters and remainders symbolic"
-//@ unit name=c18_residual_new_ok_o1_n4_w1 props=C18 tier=quick kind=bounded timeout=600 funcs="Residual::new; Residual::verify; Residual::write; Residual::count_bits" stubs="find_max -> scalar maximum (c18_find_max_contract); wrapping_sum -> scalar wrapping sum (c18_wrapping_sum_contract)" bound="partition order 1, block 4, warm-up 1; quotients <= 70, parameters and remainders symbolic"
+//@ unit name=c18_residual_new_ok_o0_n2_w0 props=C18 tier=thorough kind=bounded timeout=600 funcs="Residual::new; Residual::verify; Residual::write; Residual::count_bits" stubs="find_max -> scalar maximum (c18_find_max_contract); wrapping_sum -> scalar wrapping sum (c18_wrapping_sum_contract)" bound="partition order 0, block 2, warm-up 0; quotients <= 70, parameters and remainders symbolic"
+//@ unit name=c18_residual_new_ok_o0_n3_w2 props=C18 tier=thorough kind=bounded timeout=600 funcs="Residual::new; Residual::verify; Residual::write; Residual::count_bits" stubs="find_max -> scalar maximum (c18_find_max_contract); wrapping_sum -> scalar wrapping sum (c18_wrapping_sum_contract)" bound="partition order 0, block 3, warm-up 2; quotients <= 70, parameters and remainders symbolic"
+//@ unit name=c18_residual_new_ok_o1_n4_w1 props=C18 tier=thorough kind=bounded timeout=600 funcs="Residual::new; Residual::verify; Residual::write; Residual::count_bits" stubs="find_max -> scalar maximum (c18_find_max_contract); wrapping_sum -> scalar wrapping sum (c18_wrapping_sum_contract)" bound="partition order 1, block 4, warm-up 1; quotients <= 70, parameters and remainders symbolic"
 //@ unit name=c18_residual_new_ok_o1_n4_w3 props=C18 tier=quick kind=bounded timeout=600 funcs="Residual::new; Residual::verify; Residual::write; Residual::count_bits" stubs="find_max -> scalar maximum (c18_find_max_contract); wrapping_sum -> scalar wrapping sum (c18_wrapping_sum_contract)" bound="partition order 1, block 4, warm-up 3 (reaches into the second partition: must be rejected or serialisable); quotients <= 70, parameters and remainders symbolic"
 residual_new_ok_harness!(c18_residual_new_ok_o0_n2_w0, 1, 2, 0, 0, true);
 residual_new_ok_harness!(c18_residual_new_ok_o0_n3_w2, 1, 3, 0, 2, true);
@@ -649,7 +649,7 @@ fn c18_qp_verify_gate_small() {
     qp_verify_gate(usize::MAX);
 }
 
-//@ unit props=C18 tier=quick kind=bounded timeout=600 funcs="QuantizedParameters::verify" bound="order 24 (the maximum); all 32 lanes, shift and precision symbolic"
+//@ unit props=C18 tier=thorough kind=bounded timeout=600 funcs="QuantizedParameters::verify" bound="order 24 (the maximum); all 32 lanes, shift and precision symbolic"
 #[kani::proof]
 #[kani::unwind(27)]
 #[kani::stub(std::fmt::format, stub_format)]
@@ -862,7 +862,7 @@ fn fixed_lpc_verify_gate<const NW: usize>(rw: usize) -> bool {
     ok
 }
 
-//@ unit props=C18 tier=quick kind=bounded timeout=600 funcs="FixedLpc::verify; FixedLpc::write; FixedLpc::count_bits; Residual::verify; Residual::write" bound="(#warm-up samples, residual warm-up) in {(1,1),(0,0)}, residual of block 2; every field value symbolic"
+//@ unit props=C18 tier=thorough kind=bounded timeout=600 funcs="FixedLpc::verify; FixedLpc::write; FixedLpc::count_bits; Residual::verify; Residual::write" bound="(#warm-up samples, residual warm-up) in {(1,1),(0,0)}, residual of block 2; every field value symbolic"
 #[kani::proof]
 #[kani::unwind(8)]
 #[kani::stub(std::fmt::format, stub_format)]
@@ -936,11 +936,11 @@ macro_rules! lpc_new_harness {
 }
 
 //@ unit name=c18_lpc_new_o1 props=C18 tier=quick kind=bounded timeout=600 funcs="Lpc::new; Lpc::from_parts; Lpc::verify" bound="order 1, 1 warm-up sample, residual of block 2 / warm-up 1; coefficient, shift, precision, width, samples symbolic"
-//@ unit name=c18_lpc_new_o2 props=C18 tier=quick kind=bounded timeout=600 funcs="Lpc::new; Lpc::from_parts; Lpc::verify" bound="order 2, 2 warm-up samples, residual of block 2 / warm-up 2; all values symbolic"
-//@ unit name=c18_lpc_new_o0 props=C18 tier=quick kind=bounded timeout=600 funcs="Lpc::new; Lpc::from_parts; Lpc::verify" bound="order 0 (no coefficient, no warm-up sample), residual of block 2 / warm-up 0; all values symbolic"
+//@ unit name=c18_lpc_new_o2 props=C18 tier=thorough kind=bounded timeout=600 funcs="Lpc::new; Lpc::from_parts; Lpc::verify" bound="order 2, 2 warm-up samples, residual of block 2 / warm-up 2; all values symbolic"
+//@ unit name=c18_lpc_new_o0 props=C18 tier=thorough kind=bounded timeout=600 funcs="Lpc::new; Lpc::from_parts; Lpc::verify" bound="order 0 (no coefficient, no warm-up sample), residual of block 2 / warm-up 0; all values symbolic"
 //@ unit name=c18_lpc_new_lengths props=C18 tier=quick kind=bounded timeout=600 funcs="Lpc::new; Lpc::from_parts; Lpc::verify" bound="(#warm-up samples, order, residual warm-up) in {(1,2,1),(2,1,1),(0,1,0)}: warm-up length and order disagree; all values symbolic"
 //@ unit name=c18_lpc_new_o1_rw0 props=C18 tier=quick kind=bounded timeout=600 funcs="Lpc::new; Lpc::from_parts; Lpc::verify" bound="order 1, 1 warm-up sample, but a residual with warm-up length 0; all values symbolic"
-//@ unit name=c18_lpc_new_w25 props=C18 tier=quick kind=bounded timeout=600 funcs="Lpc::new" bound="25 warm-up samples (above the maximum order 24), order 1; all values symbolic"
+//@ unit name=c18_lpc_new_w25 props=C18 tier=thorough kind=bounded timeout=600 funcs="Lpc::new" bound="25 warm-up samples (above the maximum order 24), order 1; all values symbolic"
 lpc_new_harness!(c18_lpc_new_o1, 8, true, (1, 1, 1));
 lpc_new_harness!(c18_lpc_new_o2, 8, true, (2, 2, 2));
 lpc_new_harness!(c18_lpc_new_o0, 8, false, (0, 0, 0));
@@ -998,7 +998,7 @@ macro_rules! lpc_gate_harness {
 }
 
 //@ unit name=c18_lpc_verify_gate_o1 props=C18 tier=quick kind=bounded timeout=600 funcs="Lpc::verify; QuantizedParameters::verify; Lpc::write; Lpc::count_bits" bound="order 1, 1 warm-up sample, residual of block 2 / warm-up 1; every field value symbolic"
-//@ unit name=c18_lpc_verify_gate_o2 props=C18 tier=quick kind=bounded timeout=600 funcs="Lpc::verify; QuantizedParameters::verify; Lpc::write; Lpc::count_bits" bound="order 2, 2 warm-up samples, residual of block 2 / warm-up 2; every field value symbolic"
+//@ unit name=c18_lpc_verify_gate_o2 props=C18 tier=thorough kind=bounded timeout=600 funcs="Lpc::verify; QuantizedParameters::verify; Lpc::write; Lpc::count_bits" bound="order 2, 2 warm-up samples, residual of block 2 / warm-up 2; every field value symbolic"
 //@ unit name=c18_lpc_verify_gate_o0 props=C18 tier=quick kind=bounded timeout=600 funcs="Lpc::verify; Lpc::write; Lpc::count_bits" bound="order 0, no warm-up sample, residual of block 2 / warm-up 0; every field value symbolic"
 //@ unit name=c18_lpc_verify_gate_lengths props=C18 tier=quick kind=bounded timeout=600 funcs="Lpc::verify; Lpc::write; Lpc::count_bits" bound="(#warm-up samples, order, residual warm-up) in {(1,2,1),(2,1,1),(1,1,0)}; every field value symbolic"
 lpc_gate_harness!(c18_lpc_verify_gate_o1, true, (1, 1, 1));
